@@ -58,6 +58,37 @@ CLAIMED = {
             "per block; succeeding => only *, true, max-age and request-supplied tokens.",
             "Trusted: TLC, Go tokenisation of ACRM/ACRH/ACAM/ACAH. 'succeeds' = ok status and ACAO present.",
             "DESIGN.md 4.6, 7/C16"),
+    "C06": ("model_checking",
+            "TLC model checking of the Elems round-trip lemma on Radix.tla + TLC trace validation (TraceLifecycle.tla) of real constructor / Config() / Reconfigure executions",
+            "Model level: what Tree.Elems lists denotes exactly what was inserted and a tree rebuilt from it answers identically (every insertion "
+            "sequence of the bounded universe). Code level: seeded accepted configurations x three constructors x both debug modes x "
+            "Reconfigure(Config()) x second-generation middleware; TLC steps the documented state machine and requires the fingerprint "
+            "of all probe responses to be a function of the abstract state, Reconfigure(Config()) to succeed, and Config() to be stable "
+            "after one round trip.",
+            "Trusted: TLC, sha-256 fingerprints of (status, all headers, handler invoked) over a request suite derived from each configuration. Real-vs-real comparison.",
+            "DESIGN.md 4.2, 4.7, 7/C06"),
+    "C08": ("model_checking",
+            "TLC model checking of RejectedIsNoOp on Middleware.tla + TLC trace validation (TraceLifecycle.tla) of real rejected Reconfigure calls",
+            "Model level: the action property RejectedIsNoOp on the concurrent model. Code level: prior states x 24 invalid configurations; after each "
+            "rejected Reconfigure the real middleware is observed (all probe responses, Config(), debug probe) and TLC requires the state's "
+            "reference observation and a non-nil error.",
+            "Trusted: TLC, fingerprints. Real-vs-real comparison under the spec's state machine.",
+            "DESIGN.md 4.7, 7/C08"),
+    "C09": ("model_checking",
+            "TLC model checking (invariant PassthroughHasDebugOff, action property DebugMachine, DebugOnlyDiagnostics on Cors.tla) + exhaustive TLC-generated call histories replayed on the real middleware and validated by TLC",
+            "Model level: concurrent model + all sequential histories (LifecycleMC) + the debug-only-diagnostics statement on the request model, twins "
+            "rejected (the SetDebug-as-formerly-coded twin F2 among them). Code level: EVERY history of the bounded universe is replayed on a real "
+            "middleware and observed after every step; TLC steps the documented state machine along the recorded trace; distinct states must be "
+            "observably distinct. Debug-on vs debug-off responses of junk/structured request sets are compared by TraceServe (Prop C09).",
+            "Trusted: TLC, fingerprints, the reading of 'changes only the diagnostics of failing preflights' stated in DESIGN.md (the full allowed-header list may also replace the reflected list on a succeeding preflight).",
+            "DESIGN.md 4.7, 7/C09"),
+    "C12": ("model_checking",
+            "TLC trace validation (TraceLifecycle.tla): caller-side mutations and mutating handlers are stuttering steps of the state machine; observations must stay a function of the abstract state",
+            "Several real middlewares alive at once; in-place writes up to cap over every slice of Config arguments and Config() results, and a wrapped "
+            "handler that overwrites every request/response header slice it can reach while serving the whole probe suite; after every step all "
+            "middlewares (and one created afterwards) are observed; TLC requires the reference observation of the unchanged state.",
+            "Trusted: TLC, fingerprints. Writers that modify the response AFTER the middleware returned are out of the property's scope and are not exercised.",
+            "DESIGN.md 4.7, 7/C12"),
 }
 
 NOT_YET = "check not built yet in this round (planned, see DESIGN.md section 7)"
